@@ -71,6 +71,9 @@ class C14(OutstationProp):
         last_null_seq = None
         pending_enable = None
         cancelled = None            # the unsolicited response a DISABLE_UNSOLICITED cancelled
+        sent_at = None              # when the outstanding unsolicited response was (re)transmitted
+        late_reported = False
+        confirm_ms = int(cfg.get("confirm_ms", 5000))
         reads = {}                  # sequence number -> the READ request received last with it
         for op, t, lines in steps:
             if op[0] == "rx" and op[2] == "none" and (int(op[1]) == MASTER or int(cfg.get("anymaster", 0)) == 1):
@@ -115,6 +118,12 @@ class C14(OutstationProp):
                 if len(tk) < 3:
                     continue
                 tt = int(tk[0])
+                # the confirm timeout of an unsolicited response runs from its (re)transmission and is not pushed back by
+                # whatever else arrives during the wait (seeded change R8_z: the deadline was re-armed on every fragment)
+                if outstanding is not None and sent_at is not None and tt > sent_at + confirm_ms + 2 and not late_reported:
+                    fails.append(("unsol-timeout-late", "an unsolicited response transmitted at %d ms was still awaiting its confirm at %d ms, "
+                                  "confirm timeout %d ms (no timeout, no retry)" % (sent_at, tt, confirm_ms)))
+                    late_reported = True
                 if tk[1] == "tx":
                     x = bytes.fromhex(tk[3])
                     if len(x) >= 4 and x[1] == 129 and disable_step and outstanding is not None:
@@ -150,6 +159,7 @@ class C14(OutstationProp):
                                     fails.append(("null-sequence-reused", "empty unsolicited responses must carry fresh sequence numbers"))
                                 last_null_seq = s
                         outstanding = x
+                        sent_at = tt
                 elif tk[1] == "info":
                     if tk[2] == "unsol_confirmed":
                         if outstanding is not None and len(outstanding) == 4:
